@@ -3,6 +3,8 @@
 package server
 
 import (
+	"context"
+	"fmt"
 	"net/netip"
 	"sort"
 	"testing"
@@ -155,10 +157,125 @@ func init() {
 	_ = netip.Addr{}
 }
 
+// Dynamic neighbours: a dynamic peer whose session ends non-gracefully is stopped by its own FSM
+// callback AFTER the callback has dropped the shared read lock and re-taken it as a write lock
+// (handleFSMMessage's deferred function). Whatever the management goroutine does in that window must
+// survive the late stop. Scenario: dynamic peer D1 (address A) loses its session || the management
+// goroutine deletes A and accepts a new connection from A (= dynamic peer D2 enters the neighbour map).
+// D1 is created the way passConnToPeer creates a dynamic peer (newDynamicPeer, SetPeerPolicy, map entry,
+// startFsmHandler) minus the connection; D2 likewise, minus the FSM goroutine (it would be a goroutine
+// born inside the scheduled phase, outside the explorer's control) — its map entry is what is at stake.
+type c20DynState struct {
+	d1, d2    *peer
+	inserted  bool
+	d2Stopped bool
+}
+
+var c20Dyn = map[*schedWorld]*c20DynState{}
+
+func init() {
+	name := "c20.dyn.downA+delA-acceptA"
+	schedScenarios[name] = &schedScenario{Name: name,
+		Setup: func(w *schedWorld) []schedThread {
+			ctx := context.Background()
+			w.must(w.s.AddPeerGroup(ctx, &api.AddPeerGroupRequest{PeerGroup: &api.PeerGroup{Conf: &api.PeerGroupConf{PeerGroupName: "pg", PeerAsn: 65001}}}))
+			w.must(w.s.AddDynamicNeighbor(ctx, &api.AddDynamicNeighborRequest{DynamicNeighbor: &api.DynamicNeighbor{Prefix: "10.0.0.0/24", PeerGroup: "pg"}}))
+			spec := simBotKinds['e'](0)
+			b := &simBot{w: w.simWorld, idx: 0, spec: spec, view: map[string]string{}}
+			w.bots = append(w.bots, b)
+			st := &c20DynState{}
+			c20Dyn[w] = st
+			mk := func() *peer {
+				var p *peer
+				w.must(w.s.mgmtOperation(func() error {
+					pg := w.s.matchLongestDynamicNeighborPrefix(b.addr().String())
+					if pg == nil {
+						return fmt.Errorf("no dynamic-neighbour prefix matches %s", b.addr())
+					}
+					p = newDynamicPeer(&w.s.bgpConfig.Global, b.addr().String(), pg.Conf, w.s.globalRib, w.s.policy, w.s.logger)
+					if p == nil {
+						return fmt.Errorf("newDynamicPeer failed")
+					}
+					return w.s.policy.SetPeerPolicy(p.ID(), p.fsm.pConf.ReadOnly().ApplyPolicy)
+				}, false))
+				return p
+			}
+			st.d1 = mk()
+			w.must(w.s.mgmtOperation(func() error {
+				w.s.neighborMap[b.addr()] = st.d1
+				w.s.startFsmHandler(st.d1)
+				return nil
+			}, false))
+			w.everPeer = append(w.everPeer, st.d1)
+			if !st.d1.isDynamicNeighbor() {
+				panic("c20.dyn: D1 is not a dynamic neighbour")
+			}
+			// a static observer peer
+			w.addBot(simBotKinds['e'](1))
+			w.bots[1].idx = 1
+			w.advance(time.Second)
+			w.establish(b)
+			w.establish(w.bots[1])
+			rs := &simRoutesScenario{}
+			w.receive(b, rs.updateMsg(b, 0, 0, 0, false))
+			w.settleSetup()
+			st.d2 = mk()
+			w.everPeer = append(w.everPeer, st.d2) // its outgoing queue is closed at teardown
+			// no FSM goroutine for D2 (see above): a handler whose only job is to record the stop request
+			st.d2.fsm.h = &fsmHandler{fsm: st.d2.fsm, ctxCancel: func() { st.d2Stopped = true }}
+			return []schedThread{
+				{"downA", func() {
+					// the tail of fsmHandler.loop for D1 (not for whoever holds the address by now)
+					if w.stopped[st.d1] {
+						return // loop: "if ctx.Err() != nil { break }" before the callback
+					}
+					p := st.d1
+					r := newfsmStateReason(fsmReadFailed, nil, nil)
+					p.fsm.stateChange(bgp.BGP_FSM_IDLE, r)
+					p.fsm.h.callback(&fsmMsg{MsgType: fsmMsgStateChange, MsgData: bgp.BGP_FSM_IDLE, StateReason: r})
+					p.fsm.state.Store(bgp.BGP_FSM_IDLE)
+				}},
+				{"delA-acceptA", func() {
+					_ = w.mgmt(func() error {
+						_ = w.s.deleteNeighbor(&oc.Neighbor{Config: oc.NeighborConfig{NeighborAddress: b.addr()}}, bgp.BGP_ERROR_CEASE, bgp.BGP_ERROR_SUB_PEER_DECONFIGURED, false)
+						// passConnToPeer for an address without a peer: the new dynamic peer enters the map
+						if _, found := w.s.neighborMap[b.addr()]; !found {
+							w.s.neighborMap[b.addr()] = st.d2
+							st.inserted = true
+						}
+						return nil
+					})
+				}},
+			}
+		},
+		Check: func(w *schedWorld) {
+			st := c20Dyn[w]
+			delete(c20Dyn, w)
+			b := w.bots[0]
+			cur := w.s.neighborMap[b.addr()]
+			switch {
+			case st.inserted && cur != st.d2:
+				w.violate("C20:dynamic-peer:successor-dropped-by-late-stop", "a new dynamic peer for %s entered the neighbour map while the old one was being stopped; after both threads finished the map holds %v for that address: the late stopNeighbor of the old peer removed its successor (whose FSM nobody can reach any more)", b.addr(), cur)
+			case !st.inserted && cur == st.d1:
+				w.stat("dyn:old-peer-still-in-map-when-connection-arrived")
+			}
+			if st.inserted {
+				w.stat("dyn:successor-inserted")
+			}
+			if !w.stopped[st.d1] {
+				w.violate("C20:dynamic-peer:old-peer-not-stopped", "the dynamic peer whose session ended was never asked to stop its FSM")
+			}
+			if st.d2Stopped {
+				w.violate("C20:dynamic-peer:successor-stopped", "the new dynamic peer was asked to stop although nobody deleted it")
+			}
+			c02SchedCheck(w, "c20:rib-only")
+		}}
+}
+
 func TestVerif_C20_Sched(t *testing.T) {
 	r := vr.Start(t, "C20", "sched")
 	defer r.Finish()
-	r.Rule = "for every pair of operations from {UPDATE / withdraw on peer A, UPDATE on peer B (same / other prefix), ROUTE-REFRESH from B, session loss of A, Established of a new peer D} x {the same, soft reset in / out, DeletePeer A / B, AddPath, DisablePeer A, policy replacement, AddVrf}: stateless DFS over the interleavings of the two threads at every lock / atomic / sync.Map operation up to the preemption bound; oracle per complete execution: no deadlock, both threads complete, no panic, consistent final RIBs and views; non-trivial = distinct final daemon state"
+	r.Rule = "for every pair of operations from {UPDATE / withdraw on peer A, UPDATE on peer B (same / other prefix), ROUTE-REFRESH from B, session loss of A, Established of a new peer D} x {the same, soft reset in / out, DeletePeer A / B, AddPath, DisablePeer A, policy replacement, AddVrf}, plus {session loss of a DYNAMIC peer} x {DeletePeer of it followed by a new connection from its address}: stateless DFS over the interleavings of the two threads at every lock / atomic / sync.Map operation up to the preemption bound; oracle per complete execution: no deadlock, both threads complete, no panic, consistent final RIBs and views; non-trivial = distinct final daemon state"
 	r.Assumptions = append(r.Assumptions, "scheduling points at synchronisation operations only", "RWMutex writer preference is not modelled", "watchers and gRPC streaming are exercised by the race part only")
 	if r.ReplayPath() != "" {
 		var rp schedReplay
@@ -169,10 +286,11 @@ func TestVerif_C20_Sched(t *testing.T) {
 		return
 	}
 	bound, budget := 1, 25*time.Second
-	names := []string{"c20.updA+softout", "c20.updB+delA", "c20.downA+softin", "c20.estD+setpol", "c20.updBQ+estD", "c20.downA+estD", "c20.rrB+softout", "c20.updA+disableA"}
+	names := []string{"c20.dyn.downA+delA-acceptA", "c20.updA+softout", "c20.updB+delA", "c20.downA+softin", "c20.estD+setpol", "c20.updBQ+estD", "c20.downA+estD", "c20.rrB+softout", "c20.updA+disableA"}
 	if vr.Thorough() {
 		budget = 3 * time.Minute
 		names = nil
+		names = append(names, "c20.dyn.downA+delA-acceptA")
 		for _, p := range c20Pairs {
 			names = append(names, "c20."+p[0]+"+"+p[1])
 		}
